@@ -6,6 +6,7 @@ mod c11;
 mod c13;
 mod c14;
 mod c15;
+mod c18;
 mod c20;
 mod coqfmt;
 mod methods;
@@ -42,6 +43,7 @@ fn main() {
         "c14" => c14::run(&out, seed, thorough),
         "c14-probe" => c14::probe_main(),
         "c15" => c15::run(&out, seed, thorough),
+        "c18" => c18::run(&out, seed, thorough),
         "c20" => c20::run(&out, seed, thorough),
         "simcheck" | "simcheck-worker" | "simprobe" | "simreplay" => simcheck::main(&cmd, &args, &out, seed, thorough),
         _ => { eprintln!("usage: hx <reflect|cNN|simcheck|simprobe|simreplay> --out DIR [--seed N] [--tier quick|thorough]"); std::process::exit(2); }
